@@ -229,6 +229,20 @@ def r2_functions(program, folder, rep, eths):
         trip = [tuple(e[1] for e in x[1:]) for x in PHI[1:]]
     except Exception:
         raise AnalysisError("spinn5_eth_coords: Ethernet offsets do not fold")
+    early = [x for x in ast.walk(fn) if isinstance(x, (ast.Break,
+                                                       ast.Return))]
+    rep.check(not early, "C19-R2", inst, "every cell and each of its three "
+              "Ethernet positions is looked at (no early exit from the "
+              "loops: positions are not visited in increasing order once "
+              "they wrap round the machine)",
+              construct="eth coords early exit", node=early[0] if early
+              else fn,
+              fail="spinn5_eth_coords leaves a loop early (%s at line %d): "
+                   "Ethernet chips that come later in the loop order - "
+                   "wrapped round to the left or bottom edge by the root "
+                   "chip's offset - are never listed" % (
+                       type(early[0]).__name__.lower() if early else "",
+                       early[0].lineno if early else 0))
     rep.check(eths is not None and set(trip) == set(ETH) and
               set(trip) == eths and len(trip) == 3, "C19-R2",
               inst, "Ethernet positions per 12x12 cell %s equal the ones the "
